@@ -73,3 +73,13 @@ Definition must_bases_fl (fl : flags) (x : input) (p : seq) : list seq :=
     filter (fun q => mem_seq p (alt_closure fl x (if keepx x q then [q] else []) [q]))
            (must_products (unlimited x) h))
     (must_haps x).
+
+(* the same for many alt forms in one pass: [(p, base)] for every given p and every obliged product
+   (limits lifted) one of whose forms is p *)
+Definition must_bases_fl_many (fl : flags) (x : input) (peps : list seq) : list (seq * seq) :=
+  flat_map (fun h =>
+    flat_map (fun q =>
+      let forms := alt_closure fl x (if keepx x q then [q] else []) [q] in
+      flat_map (fun p => if mem_seq p forms then [(p, q)] else []) peps)
+      (must_products (unlimited x) h))
+    (must_haps x).
